@@ -2,7 +2,7 @@
    (per group: shape check and succinct check on the shared transcripts, then ONE final key check on the random
    combination of the check polynomials and final keys; randomizer 1, then 128-bit values from the verifier's RNG). *)
 From Coq Require Import List Arith NArith Bool.
-From PC Require Import Base.Field Base.Result Base.Poly Schemes.LC Schemes.Marlin Schemes.IPA Schemes.DefaultBatch.
+From PC Require Import Base.Field Base.Result Base.Poly Base.OrdMap Schemes.LC Schemes.Marlin Schemes.MarlinLC Schemes.IPA Schemes.DefaultBatch.
 Import ListNotations.
 Local Open Scope nat_scope.
 
@@ -67,3 +67,109 @@ Section IPABatch.
     | Some (cp, ck) => Ok (gvzero (gvsub (gmsm (key_of d) cp) ck), rest, hrest, draws)
     end.
 End IPABatch.
+
+(* ---------------- IPA open_combinations / check_combinations (the scheme's own) ---------------- *)
+Section IPALC.
+  Context {FO : FieldOps}.
+  Local Open Scope F_scope.
+
+  Definition comb_opt_f (cur new : option F) (coeff : F) : option F :=
+    match new with Some x => Some (match cur with Some r => r + x * coeff | None => x * coeff end) | None => cur end.
+  Definition comb_opt_g (cur new : option gv) (coeff : F) : option gv :=
+    match new with Some x => Some (match cur with Some c => gvadd c (gvscale coeff x) | None => gvscale coeff x end) | None => cur end.
+
+  Record ilc_acc := mkIA { ia_poly : poly; ia_bound : option nat; ia_hiding : option nat; ia_rand : F; ia_srand : option F;
+                           ia_cc : gv; ia_cs : option gv }.
+
+  Fixpoint ilc_prover_loop (lm : list (N * (LPoly * IRand * (IComm * option nat)))) (num : nat) (terms : lc) (a : ilc_acc) : res ilc_acc :=
+    match terms with
+    | [] => Ok a
+    | (_, TOne) :: t => ilc_prover_loop lm num t a
+    | (coeff, TPoly l) :: t =>
+      match OrdMap.lookup N.compare l lm with
+      | None => Err EMissingPolynomial
+      | Some (lp, st, cm) =>
+        do b <- bound_policy num coeff (lp_bound lp) (ia_bound a);
+        ilc_prover_loop lm num t
+          {| ia_poly := padd_scaled (ia_poly a) coeff (lp_poly lp); ia_bound := b; ia_hiding := opt_max (ia_hiding a) (lp_hiding lp);
+             ia_rand := ia_rand a + ir_rand st * coeff; ia_srand := comb_opt_f (ia_srand a) (ir_shifted st) coeff;
+             ia_cc := gvadd (ia_cc a) (gvscale coeff (ic_comm (fst cm))); ia_cs := comb_opt_g (ia_cs a) (ic_shifted (fst cm)) coeff |}
+      end
+    end.
+
+  (* construct_labeled_commitments: walk the flat element list; a degree bound takes two elements *)
+  Fixpoint construct_lcomms (info : list (N * option nat)) (flat : list gv) : res (list (N * (IComm * option nat))) :=
+    match info with
+    | [] => Ok []
+    | (lab, bound) :: t =>
+      match bound, flat with
+      | Some b, c :: sc :: flat' => do r <- construct_lcomms t flat'; Ok ((lab, ({| ic_comm := c; ic_shifted := Some sc |}, Some b)) :: r)
+      | None, c :: flat' => do r <- construct_lcomms t flat'; Ok ((lab, ({| ic_comm := c; ic_shifted := None |}, None)) :: r)
+      | _, _ => Panic                                 (* comms[i] / comms[i + 1] out of range *)
+      end
+    end.
+
+  Definition flat_of (cc : gv) (cs : option gv) : list gv := cc :: match cs with Some x => [x] | None => [] end.
+
+  Fixpoint ilc_prover_all (lm : list (N * (LPoly * IRand * (IComm * option nat)))) (lcs : list (N * lc))
+    : res (list (LPoly * IRand) * list (N * option nat) * list gv) :=
+    match lcs with
+    | [] => Ok ([], [], [])
+    | (lab, terms) :: t =>
+      do a <- ilc_prover_loop lm (length terms) terms
+                {| ia_poly := []; ia_bound := None; ia_hiding := None; ia_rand := 0; ia_srand := None; ia_cc := []; ia_cs := None |};
+      do r <- ilc_prover_all lm t;
+      let '(ps, info, flat) := r in
+      Ok (({| lp_label := lab; lp_poly := ia_poly a; lp_bound := ia_bound a; lp_hiding := ia_hiding a |},
+           {| ir_rand := ia_rand a; ir_shifted := ia_srand a |}) :: ps,
+          (lab, ia_bound a) :: info, flat_of (ia_cc a) (ia_cs a) ++ flat)
+    end.
+
+  Definition i_open_combinations (d : nat) (lcs : list (N * lc)) (items : list (LPoly * IRand * (IComm * option nat)))
+             (qs : list query) (st : ISt) : res (list IProof * ISt) :=
+    let lm := of_list N.compare (map (fun it => (lp_label (fst (fst it)), it)) items) in
+    do r <- ilc_prover_all lm lcs;
+    let '(ps, info, flat) := r in
+    do lcm <- construct_lcomms info flat;
+    let bitems := map (fun pc => (lp_label (fst (fst pc)),
+                                  (fst (fst pc), snd (snd (snd pc)), fst (snd (snd pc)), snd (fst pc))))
+                      (combine ps lcm) in
+    i_batch_open d bitems qs st.
+
+  (* verifier: constants move into the claimed values of their own combination *)
+  Fixpoint ilc_verifier_loop (cm : list (N * (IComm * option nat))) (lc_label : N) (num : nat) (terms : lc)
+           (ev : list (N * point * F)) (bound : option nat) (cc : gv) (cs : option gv)
+    : res (list (N * point * F) * option nat * gv * option gv) :=
+    match terms with
+    | [] => Ok (ev, bound, cc, cs)
+    | (coeff, TOne) :: t =>
+      ilc_verifier_loop cm lc_label num t
+        (map (fun kv => if N.eqb (fst (fst kv)) lc_label then (fst kv, snd kv - coeff) else kv) ev) bound cc cs
+    | (coeff, TPoly l) :: t =>
+      match OrdMap.lookup N.compare l cm with
+      | None => Err EMissingPolynomial
+      | Some c =>
+        do b <- bound_policy num coeff (snd c) bound;
+        ilc_verifier_loop cm lc_label num t ev b (gvadd cc (gvscale coeff (ic_comm (fst c)))) (comb_opt_g cs (ic_shifted (fst c)) coeff)
+      end
+    end.
+
+  Fixpoint ilc_verifier_all (cm : list (N * (IComm * option nat))) (lcs : list (N * lc)) (ev : list (N * point * F))
+    : res (list (N * option nat) * list gv * list (N * point * F)) :=
+    match lcs with
+    | [] => Ok ([], [], ev)
+    | (lab, terms) :: t =>
+      do r <- ilc_verifier_loop cm lab (length terms) terms ev None [] None;
+      let '(ev1, b, cc, cs) := r in
+      do rest <- ilc_verifier_all cm t ev1;
+      let '(info, flat, ev2) := rest in
+      Ok ((lab, b) :: info, flat_of cc cs ++ flat, ev2)
+    end.
+
+  Definition i_check_combinations (d : nat) (lcs : list (N * lc)) (cs : list (N * (IComm * option nat))) (qs : list query)
+             (ev : list (N * point * F)) (proofs : list IProof) (chal hchal vtape : list F) : res (bool * list F * list F * nat) :=
+    do r <- ilc_verifier_all (of_list N.compare cs) lcs ev;
+    let '(info, flat, ev') := r in
+    do lcm <- construct_lcomms info flat;
+    i_batch_check d lcm qs ev' proofs chal hchal vtape.
+End IPALC.
